@@ -227,10 +227,10 @@ package hessian
 //@   requires flag == -1 || (0 <= flag && flag <= 255)
 //@   assigns @pos, @E, @declared
 //@   loop 1 invariant [C03,C09:str-chunk-own-length] len(buf) == @declared
-//@   ensures [C14:str-total] true
+//@   proves [C03,C06:str-ends-at-final-chunk] err == nil && @pos < len(@in) && tag != 'N' ==> tag == 'S' || tag <= 0x1f || (0x30 <= tag && tag <= 0x33)
 
 //@ func decodeBinaryValue
 //@   requires flag == -1 || (0 <= flag && flag <= 255)
 //@   assigns @pos, @E, @declared
 //@   loop 1 invariant [C03,C09:bin-chunk-own-length] len(buf) == @declared
-//@   ensures [C14:bin-total] true
+//@   proves [C03,C06:bin-ends-at-final-chunk] err == nil && @pos < len(@in) ==> tag == 'B' || (0x20 <= tag && tag <= 0x2f)
